@@ -49,13 +49,13 @@ def check_one(kind, d, budget=3):
         feat = "text-with-pipe" if any("|" in t for t in ([d["description"] or ""] + [v for vs in d["extensions"].values() for v in vs])) else "other"
         return [(f"reparse-exc:{feat}:{norm_msg(e, 30)}", f"from_string(str(d)) raised {type(e).__name__}: {e}; text {s[:140]!r}")]
     try:
-        if str(obj) != s or str(back) != s and back == obj:
+        if str(obj) != s or str(back) != s and not av.differs(back, obj):
             return [("str-not-repeatable", f"text form not stable: {s[:100]!r}")]
-        if gs.cls_of(sl, kind).from_string(s) != back:
+        if av.differs(gs.cls_of(sl, kind).from_string(s), back):
             return [("parse-not-repeatable", f"parsing {s[:100]!r} twice gives different definitions")]
     except Exception as e:
         return [(f"second-use-exc:{norm_msg(e, 30)}", f"second str()/from_string raised {type(e).__name__}: {e}")]
-    if back == obj:
+    if not av.differs(back, obj):
         # a parsed definition is the caller's own value: editing its lists must not influence later parses
         try:
             for fld in ("names", "must", "may", "super_types", "aux", "never"):
@@ -65,13 +65,13 @@ def check_one(kind, d, budget=3):
             for v in back.extensions.values():
                 v.append("edited-by-caller")
             again = gs.cls_of(sl, kind).from_string(s)
-            if again != obj:
+            if av.differs(again, obj):
                 fld = next((k for k in d if gs.from_obj(kind, again).get(k) != d[k]), "?")
                 return [(f"parse-result-shared-with-earlier-parse:{fld}", f"after the caller edited a previously parsed definition, parsing {s[:80]!r} again gives field {fld} = {gs.from_obj(kind, again).get(fld)!r}")]
         except Exception as e:
             return [(f"second-use-exc:{norm_msg(e, 30)}", f"{type(e).__name__}: {e}")]
         return []
-    if back != obj:
+    if av.differs(back, obj):
         a, b = gs.from_obj(kind, back), d
         fld = next((k for k in b if a.get(k) != b[k]), "?")
         return [(f"roundtrip-differs:{kind}:{fld}", f"field {fld}: {a.get(fld)!r} != {b.get(fld)!r}; text {s[:140]!r}")]
